@@ -733,6 +733,7 @@ func generateSphinxPacket(rt *route.Route, paymentHash []byte,
 //  2. Blinded payment consistency
 //  3. Amount validation
 //  4. Total payment amount limits
+//  5. Attempt ID not yet used by the payment
 func verifyAttempt(payment *MPPayment, attempt *HTLCAttemptInfo) error {
 	// If the final hop has encrypted data, then we know this is a
 	// blinded payment. In blinded payments, MPP records are not set
@@ -829,6 +830,14 @@ func verifyAttempt(payment *MPPayment, attempt *HTLCAttemptInfo) error {
 	if sentAmt+amt > payment.Info.Value {
 		return fmt.Errorf("%w: attempted=%v, payment amount=%v",
 			ErrValueExceedsAmt, sentAmt+amt, payment.Info.Value)
+	}
+
+	// An attempt ID identifies exactly one attempt of the payment. Storing
+	// a second attempt under an ID that is already taken would replace the
+	// first one and with it the amount it still has in flight.
+	if _, err := payment.GetAttempt(attempt.AttemptID); err == nil {
+		return fmt.Errorf("%w: attempt ID %v",
+			ErrAttemptAlreadyRegistered, attempt.AttemptID)
 	}
 
 	return nil
